@@ -64,7 +64,7 @@ def _read_status(path, calls=None):
 
 
 def run_probes(probes, native_dir, repo, workdir, per_probe_timeout=60.0, batch_timeout=900.0, info=None,
-               extra_asan=""):
+               extra_asan="", max_deaths_per_entry=6):
     """-> list of outcomes (same length/order as probes)"""
     workdir = Path(workdir)
     workdir.mkdir(parents=True, exist_ok=True)
@@ -75,6 +75,7 @@ def run_probes(probes, native_dir, repo, workdir, per_probe_timeout=60.0, batch_
     pfile.write_text(json.dumps(probes))
     results = [None] * len(probes)
     allcalls = {}
+    deaths = {}         # entry point -> number of workers it killed in this batch
     start, attempt = 0, 0
     t_batch = time.time()
     info = info if info is not None else {}
@@ -94,8 +95,9 @@ def run_probes(probes, native_dir, repo, workdir, per_probe_timeout=60.0, batch_
         env.pop("PYTHONPATH", None)
         so = open(workdir / f"stdout.{attempt}", "w")
         se = open(workdir / f"stderr.{attempt}", "w")
+        skip = sorted(k for k, n in deaths.items() if n >= max_deaths_per_entry)
         proc = subprocess.Popen([sys.executable, str(WORKER), str(native_dir), str(repo), str(pfile), str(status),
-                                 str(start)], stdout=so, stderr=se, stdin=subprocess.DEVNULL, env=env,
+                                 str(start), json.dumps(skip)], stdout=so, stderr=se, stdin=subprocess.DEVNULL, env=env,
                                 cwd=str(workdir), start_new_session=True)
         info["workers"] += 1
         last_progress, last_n = time.time(), -1
@@ -152,6 +154,8 @@ def run_probes(probes, native_dir, repo, workdir, per_probe_timeout=60.0, batch_
                                + (workdir / f"stderr.{attempt}").read_text()[-800:])
         i = pending[-1]
         info["deaths"] += 1
+        key = probes[i].get("entry", probes[i].get("fn"))
+        deaths[key] = deaths.get(key, 0) + 1
         text = ""
         for f in workdir.glob(f"asan.{attempt}.*"):
             text += f.read_text(errors="replace")
